@@ -110,6 +110,8 @@ def judge(case, impl, model):
     """the main call and every call of its history are judged alike"""
     if case.get("oracle") == "map":
         return S.judge_map(case, impl)
+    if case.get("oracle") == "fc":
+        return S.judge_fc(case, impl)
     cd = case["cls"]
     pre = case.get("pre") or []
     hist = ""
